@@ -40,14 +40,21 @@ RULE = ("honest PSBTs of random m-of-n wallets (1 <= m <= n <= 4; P2SH through c
         "is non-trivial always; distinct = distinct (PSBT bytes, hdpubkey_map) requests")
 CLAUSES = {
     "fee = sum(inputs) - sum(outputs); spend + change + fee = sum(inputs)":
-        "proved (summary_fee, summary_partition, summary_totals, summary_outputs, summary_single_change; "
+        "proved (summary_fee, summary_partition, summary_totals, summary_outputs, summary_single_change — about the NUMBER of "
+        "change-labelled outputs, whatever their amounts: a second one is refused also after a 0-sat first one; "
         "input_value_is_utxo_amount ties the summed values to the UTXO records PSBT.parse read)",
     "is_change => scriptPubKey is P2SH / P2WSH / P2SH-P2WSH of the attached script by hash":
-        "proved relative to hash160 / sha256 (change_commits_by_hash; hypothesis: hash160 returns 20 bytes); findings F11b, F11c fixed",
+        "proved relative to hash160 / sha256 (change_commits_by_hash; hypothesis: hash160 returns 20 bytes; in the native-P2WSH case "
+        "the commitment is read off the scriptPubKey and no RedeemScript record may be present); findings F11b, F11c fixed; "
+        "implementation side: the {scriptPubKey kind} x {RedeemScript record} x {WitnessScript record} matrix on the change output "
+        "(describe_matrix lines, predicate change_label_commits)",
     "is_change => script is m-of-n with the inputs' quorum, keys = exactly one derive of each declared cosigner at the stated path":
         "proved (change_is_plain_multisig, change_keys_perm, change_one_key_per_cosigner, change_is_wallet_multisig); "
         "findings F11a, F11e fixed (F11a_witness, F11e_witness show the defects with the repairs switched off); "
-        "the threshold m is only shown equal to the inputs' threshold (the code never range-checks it)",
+        "the threshold m is only shown equal to the inputs' threshold (the code never range-checks it); the final opcode is "
+        "OP_CHECKMULTISIG itself (0xae): scripts with all the genuine keys and another final opcode / an extra opcode / OP_m, OP_n off "
+        "by one are run against the model on the change output and on every input (describe_template lines, predicate "
+        "template_exact; inputs need not be the plain template: observation O11c)",
     "tampering catalogue => rejected":
         "proved per item (tamper_swapped_spk, tamper_witness_script_spk, tamper_foreign_output_witness_script, "
         "tamper_foreign_output_script_p2sh_p2wsh, tamper_foreign_input_script, tamper_foreign_input_witness_script, "
